@@ -946,6 +946,7 @@ func IsKeyword(word string) bool {
 		"coproc", // only if COPROCESS_SUPPORT is defined
 		"do",
 		"done",
+		"elif",
 		"else",
 		"esac",
 		"fi",
